@@ -207,7 +207,7 @@ pub fn check_query(qc: &QueryCase, si: &SearchInstance, rep: &mut Report) {
 fn case(tier: Tier, rng: &mut Rng, rep: &mut Report) {
     let p = world_params(tier, rng);
     let world = gen_world(rng, &p);
-    let mut qc = QueryCase { world, cut: vec![], query: json!({}), alg: Alg::Dijkstra, od: Od::Vertex(0, None), reverse: false };
+    let mut qc = QueryCase { world, cut: vec![], query: json!({}), alg: Alg::Dijkstra, od: Od::Vertex(0, None), reverse: false, via_files: rng.chance(0.2) };
     let si = match qc.build() {
         Ok(s) => s,
         Err(e) => {
